@@ -324,6 +324,91 @@ def check_span(run, ir, n, miss, lam, span):
         run.unknown(key, f"{r0}/{res}")
 
 
+# ------------------------------------------------------------------------------------------
+# lonf (l1 trend filter): the QP solver (daqp, compiled) cannot be lifted, so nothing is claimed for all data.  For a list of CONCRETE
+# data sets z3 decides, per data set, whether a dual certificate of optimality exists for the returned trend:
+#   minimise 1/2 |y - z|^2 + smooth * |D z|_1   (D = first / second difference, written here from the definition)
+#   z optimal  <=>  exists nu:  y - z = D' nu,  |nu_i| <= smooth,  nu_i = smooth * sign((D z)_i) wherever (D z)_i != 0
+# ------------------------------------------------------------------------------------------
+_LONF_DATA = ((1.0, 2.0, 4.0, 3.0, 5.0, 9.0, 8.0, 10.0), (0.5, 0.25, 1.5, 1.0, 3.0, 2.5, 2.0, 4.0, 4.5), (2.0, 2.5, 2.0, 6.0, 6.5, 6.0, 1.0))
+
+
+def _lonf_case(ir, data, order, smooth):
+    x = ir.Series(start=_qq(0), values=tuple(data))
+    trend, gap = ir.lonf(x, order, smooth)
+    n = len(data)
+    z = [float(v) for v in np.asarray(trend.get_data(_qq(0) >> _qq(n - 1)), dtype=float).reshape(-1)]
+    g = [float(v) for v in np.asarray(gap.get_data(_qq(0) >> _qq(n - 1)), dtype=float).reshape(-1)]
+    return z, g
+
+
+def _lonf_certificate(run, data, z, order, smooth):
+    """(verdict, message): z3 decides the existence of the dual certificate (QF_LRA on the concrete numbers)"""
+    n = len(data)
+    rows = []
+    for i in range(n - order):
+        r = [0.0] * n
+        if order == 1:
+            r[i], r[i + 1] = -1.0, 1.0                      # (D z)_i = z_{i+1} - z_i
+        else:
+            r[i], r[i + 1], r[i + 2] = 1.0, -2.0, 1.0       # (D z)_i = z_i - 2 z_{i+1} + z_{i+2}
+        rows.append(r)
+    nu = [z3.Real(f"nu_{i}") for i in range(n - order)]
+    tol = Fraction(1, 10 ** 6)
+    lam = S.float_fraction(float(smooth))
+    cons = []
+    for t in range(n):
+        lhs = sum((S.float_fraction(rows[i][t]) * nu[i] for i in range(n - order) if rows[i][t] != 0.0), z3.RealVal(0))
+        rhs = S.float_fraction(float(data[t])) - S.float_fraction(float(z[t]))
+        cons += [lhs - rhs <= tol, rhs - lhs <= tol]
+    for i in range(n - order):
+        dz = sum(rows[i][t] * z[t] for t in range(n))
+        cons += [nu[i] <= lam + tol, nu[i] >= -lam - tol]
+        if dz > 1e-5:
+            cons.append(nu[i] >= lam - Fraction(1, 10 ** 5))
+        elif dz < -1e-5:
+            cons.append(nu[i] <= -lam + Fraction(1, 10 ** 5))
+    r, _ = run.check_sat(cons, timeout_ms=30000)
+    return r
+
+
+def check_lonf(run, ir):
+    for di, data in enumerate(_LONF_DATA):
+        for order in (1, 2):
+            for smooth in (0.5, 2.0):
+                key = f"lonf:data{di}:order={order}:smooth={smooth}"
+                case = dict(kind="lonf", data=di, order=order, smooth=smooth)
+                try:
+                    z, g = _lonf_case(ir, data, order, smooth)
+                except Exception as exc:
+                    run.counterexample(key, "lonf:raises", f"lonf raises {type(exc).__name__}: {str(exc)[:120]}", case)
+                    continue
+                if len(z) != len(data) or any(abs(z[t] + g[t] - data[t]) > 1e-9 for t in range(len(data))):
+                    run.counterexample(key, "lonf:trend+gap", "trend + gap differs from the data", case)
+                    continue
+                r = _lonf_certificate(run, data, z, order, smooth)
+                if r == "sat":
+                    run.ok(key, nontrivial=False)
+                elif r == "unsat":
+                    run.counterexample(key, f"lonf:optimality:order={order}", f"no dual certificate exists: the returned trend is not the minimiser of the l1 trend-filter problem of order {order}", case)
+                else:
+                    run.unknown(key, f"solver {r}")
+    run.extra["executed_obligations"] = run.extra.get("executed_obligations", 0) + 1
+
+
+def _replay_lonf(ir, case):
+    from symx.report import Run as _Run
+    data = _LONF_DATA[case["data"]]
+    try:
+        z, g = _lonf_case(ir, data, case["order"], case["smooth"])
+    except Exception as exc:
+        return True, f"lonf raises {type(exc).__name__}: {exc}"
+    if len(z) != len(data) or any(abs(z[t] + g[t] - data[t]) > 1e-9 for t in range(len(data))):
+        return True, "trend + gap differs from the data"
+    r = _lonf_certificate(_Run(PID, "replay"), data, z, case["order"], case["smooth"])
+    return r == "unsat", f"dual certificate: {r}"
+
+
 def main(run):
     ir = load_irispie()
     run.extra["proxy_selftest_checks"] = npproxy.selftest()
@@ -337,7 +422,9 @@ def main(run):
     run.stubs += ["numpy.linalg.solve -> fresh trend and multipliers z with the contract F z = b (F concrete for concrete lambda)"]
     run.assumptions += ["objective: sum over observed (y-tau)^2 + lambda * sum (second differences)^2 (the standard HP objective; the docstring's formula has lambda on the other term, "
                         "which contradicts its own default-lambda table)", "cells are mathematical reals"]
-    run.outside += ["lonf (daqp QP solver: dual variables cannot be lifted) -- not claimed", "symbolic lambda", "more than 3 variants; per-variant level/change constraints (the code reads variant 0 of the constraint series only)", "n > 7"]
+    run.bounds["lonf"] = ("NOT for all data (the daqp QP solver is compiled): for 3 concrete data sets x order in {1,2} x smooth in {0.5, 2} z3 decides whether a dual "
+                          "certificate of optimality exists for the returned trend (D written from the definition); trend+gap=data compared concretely")
+    run.outside += ["lonf for all data (daqp QP solver: cannot be lifted); only the per-data-set certificate above", "lonf with missing values, several variants, spans", "symbolic lambda", "more than 3 variants; per-variant level/change constraints (the code reads variant 0 of the constraint series only)", "n > 7"]
     lams = (10.0, 1600.0)
     for (n, miss, lv, ch) in _structures(run.tier):
         for lam in (lams if run.tier == "thorough" or (not lv and not ch) else lams[:1]):
@@ -365,11 +452,17 @@ def main(run):
             run.unknown(f"{fn.__name__}:{args}", exc)
         except Exception as exc:
             run.error(f"{fn.__name__}:{args}", exc)
+    try:
+        check_lonf(run, ir)
+    except Exception as exc:
+        run.error("lonf", exc)
     run.extra["exhaustive"] = True
 
 
 def replay(case):
     ir = load_irispie()
+    if case.get("kind") == "lonf":
+        return _replay_lonf(ir, case)
     vals = {k: float(Fraction(a, b)) for k, (a, b) in case.get("values", {}).items()}
     n, lam = case["n"], case["lam"]
     if case["kind"] == "line":
